@@ -7,6 +7,9 @@ Export ListNotations.
 Open Scope string_scope.
 Open Scope list_scope.
 Open Scope Z_scope.
+(* String exports length/concat/... that shadow the list functions; pin the list versions *)
+Notation length := List.length (only parsing).
+Notation concat := List.concat (only parsing).
 Infix "+++" := String.append (right associativity, at level 60) : string_scope.
 
 (* ---------------------------------------------------------------- result monad *)
